@@ -500,6 +500,13 @@ func (f *framer) payload() {
 }
 
 // reads a frame form the wire into the framers buffer
+// frameReadError is returned by readFrame when the body could not be read in
+// full: the reader is no longer at a frame boundary, the connection cannot be
+// used any further.
+type frameReadError struct {
+	error
+}
+
 func (f *framer) readFrame(r io.Reader, head *frameHeader) error {
 	if head.length < 0 {
 		return fmt.Errorf("frame body length can not be less than 0: %d", head.length)
@@ -507,7 +514,7 @@ func (f *framer) readFrame(r io.Reader, head *frameHeader) error {
 		// need to free up the connection to be used again
 		_, err := io.CopyN(ioutil.Discard, r, int64(head.length))
 		if err != nil {
-			return fmt.Errorf("error whilst trying to discard frame with invalid length: %v", err)
+			return &frameReadError{fmt.Errorf("error whilst trying to discard frame with invalid length: %v", err)}
 		}
 		return ErrFrameTooBig
 	}
@@ -522,7 +529,7 @@ func (f *framer) readFrame(r io.Reader, head *frameHeader) error {
 	// assume the underlying reader takes care of timeouts and retries
 	n, err := io.ReadFull(r, f.buf)
 	if err != nil {
-		return fmt.Errorf("unable to read frame body: read %d/%d bytes: %v", n, head.length, err)
+		return &frameReadError{fmt.Errorf("unable to read frame body: read %d/%d bytes: %v", n, head.length, err)}
 	}
 
 	if head.flags&flagCompress == flagCompress {
